@@ -127,41 +127,81 @@ func vConfigs() []vCfg {
 		mk(long254, "/", nil, false, true, "", time.Hour, "h.example.org"),
 		mk(long256, "/", nil, false, true, "", time.Hour, "h.example.org"),
 		mk("x_1", "/", []string{"example.org"}, true, false, "lax", 1500 * time.Millisecond, "h.example.org"),
+		mk("_oauth2_proxy_"+strings.Repeat("u", 241), "/", nil, false, true, "", time.Hour, "h.example.org"),
+		mk("_a_"+strings.Repeat("w_", 126)+"z", "/", nil, false, true, "", time.Hour, "h.example.org"),
+		mk(strings.Repeat("p", 120)+"_7", "/", []string{".sub.example.org", ".example.org"}, true, true, "strict", time.Hour, "x.sub.example.org:8443"),
 	}
 }
 
-// thresholds: raw value lengths n at which the serialised cookie crosses a multiple of the limit
+// thresholds: raw value lengths n at which the number of emitted cookies changes, found both
+// analytically (serialised length of the unsplit cookie crossing k*limit, independent of the
+// code under test) and empirically (where the implementation's part count changes).
 func vInterestingLens(c vCfg, r *rand.Rand) []int {
-	// signed length = 4*ceil(n/3) + 1 + 10 + 1 + 44 ; overhead = name + '=' + attrs
 	lens := []int{1, 2, 3, 17, 100}
+	s := &SessionStore{Cookie: c.opts}
+	req := httptest.NewRequest("GET", "http://"+c.host+"/", nil)
+	signedLen := func(n int) int { return 4*((n+2)/3) + 56 }
+	// serialised length of the unsplit cookie, built with net/http directly (not repository code)
 	probe := func(n int) int {
-		s := &SessionStore{Cookie: c.opts}
-		req := httptest.NewRequest("GET", "http://"+c.host+"/", nil)
-		ck := s.makeCookie(req, c.opts.Name, strings.Repeat("A", 4*((n+2)/3)+56), c.opts.Expire)
+		ck := &http.Cookie{Name: c.opts.Name, Value: strings.Repeat("A", signedLen(n)), Path: c.opts.Path,
+			HttpOnly: c.opts.HTTPOnly, Secure: c.opts.Secure, MaxAge: int(c.opts.Expire.Seconds())}
+		ref := s.makeCookie(req, c.opts.Name, "x", c.opts.Expire)
+		ck.Domain = ref.Domain
+		ck.SameSite = ref.SameSite
 		return len(ck.String())
 	}
-	for k := 1; k <= 3; k++ {
-		// find the smallest n with serialised length > k*limit (approximately), then sweep around it
+	parts := func(n int) int {
+		cs, err := s.makeSessionCookie(req, vRandBytesConst(n), time.Unix(1790000000, 0))
+		if err != nil {
+			return 0
+		}
+		return len(cs)
+	}
+	search := func(pred func(int) bool) int {
 		lo, hi := 1, 20000
 		for lo < hi {
 			mid := (lo + hi) / 2
-			if probe(mid) > k*maxCookieLength-k*300 {
+			if pred(mid) {
 				hi = mid
 			} else {
 				lo = mid + 1
 			}
 		}
-		for d := -9; d <= 240; d += 1 {
-			if d > 12 && d%37 != 0 {
-				continue
+		return lo
+	}
+	add := func(center, before, after int) {
+		for d := -before; d <= after; d++ {
+			if center+d > 0 {
+				lens = append(lens, center+d)
 			}
-			if lo+d > 0 {
-				lens = append(lens, lo+d)
-			}
+		}
+	}
+	for k := 1; k <= 3; k++ {
+		kk := k
+		a := search(func(n int) bool { return probe(n) > kk*maxCookieLength })
+		add(a, 10, 8)
+		// also where the bare value (without name and attributes) crosses the limit
+		b := search(func(n int) bool { return signedLen(n) > kk*maxCookieLength })
+		add(b, 5, 5)
+		e := search(func(n int) bool { return parts(n) > kk })
+		if e != a {
+			add(e, 6, 6)
+		}
+		// a sparse walk between consecutive thresholds
+		for d := 40; d < 2800; d += 331 {
+			lens = append(lens, a+d)
 		}
 	}
 	lens = append(lens, 6000+r.Intn(300), 12000+r.Intn(300))
 	return lens
+}
+
+func vRandBytesConst(n int) []byte {
+	b := make([]byte, n)
+	for i := range b {
+		b[i] = byte(i*131 + 7)
+	}
+	return b
 }
 
 func driveCookieStore(t *testing.T, out *vEmitter) {
@@ -180,7 +220,7 @@ func driveCookieStore(t *testing.T, out *vEmitter) {
 			if ci > 2 {
 				keep := lens[:0]
 				for i, n := range lens {
-					if i%3 == 0 || n < 200 {
+					if i%2 == 0 || n < 200 || n < 3200 {
 						keep = append(keep, n)
 					}
 				}
